@@ -6,11 +6,11 @@ open Pox Pox.Proto Pox.Core
 the machine itself (`Model/Core.lean`) works on numbers.
 
 request  {"repaired":bool, "fuel":n, "bodies":[[act…]…], "onGoingUp":[act…], "onUp":…, "onGoingDown":…, "onDown":…,
-          "sinks":[{"attrs":[str…], "explicit":[str…], "met":body|null}…], "events":[[comp,[event…]]…], "ops":[op…]}
+          "sinks":[{"attrs":[str…], "explicit":[str…], "met":body|null, "set_attrs":bool, "short_attrs":bool}…], "events":[[comp,[event…]]…], "ops":[op…]}
 act      {"a":"register","n":str} {"a":"declare","deps":[str…],"body":k} {"a":"listen","sink":k} {"a":"getDeferral"}
          {"a":"release","k":i} {"a":"quit"} {"a":"raise"}          op = act | {"a":"goUp"} | {"a":"tick"}
 response {"log":[event…], "marks":[log length after each op], "comps":[str…], "pending":[id…], "outstanding":n, "decls":[[id,body]…],
-          "sinks":[{"id":decl id,"sink":k,"fired":bool,"deps":[str…],"bound":[[attr,comp,event]…]}…]} -/
+          "sinks":[{"id":decl id,"sink":k,"fired":bool,"deps":[str…],"attrs":[attribute names set on the sink],"bound":[[attr,comp,event]…]}…]} -/
 
 abbrev PM := StateT (List String) (Except String)
 
@@ -26,6 +26,8 @@ structure SinkD where
   attrs : List String
   explicit : List String
   met : Option Nat
+  setAttrs : Bool
+  short : Bool
 
 def parseAct (nb : Nat) (sinks : List SinkD) (j : J) : PM Act := do
   let a ← liftE (j.string "a")
@@ -63,7 +65,9 @@ def parseSink (j : J) : Except String SinkD := do
   let attrs ← (← j.array "attrs").mapM J.asStr
   let explicit ← (← j.array "explicit").mapM J.asStr
   let met ← j.optNat "met"
-  pure { attrs, explicit, met }
+  let setAttrs ← j.boolean "set_attrs"
+  let short ← j.boolean "short_attrs"
+  pure { attrs, explicit, met, setAttrs, short }
 
 def evJ (tbl : List String) : Ev → J
   | .fired id snap => J.arr [J.str "fired", J.ofNat id, J.arr (snap.map fun n => J.str (tbl.getD n "?"))]
@@ -118,7 +122,9 @@ def handleM (j : J) : PM J := do
         let deps := listenDeps s.explicit s.attrs
         let fired := firedIds.contains e.id
         let bound := if fired then wiring deps s.attrs (fun c => (evTbl.find? (·.1 = c)).map (·.2)) else []
+        let set := if fired then sinkAttrs s.setAttrs s.short deps else []
         some (J.mk [("id", J.ofNat e.id), ("sink", J.ofNat k), ("fired", J.bool fired), ("deps", J.arr (deps.map J.str)),
+                    ("attrs", J.arr (set.map J.str)),
                     ("bound", J.arr (bound.map fun (a, c, ev) => J.arr [J.str a, J.str c, J.str ev]))])
     else none
   pure (J.mk [("log", J.arr (m.core.log.map (evJ tbl))), ("marks", J.ofNats marks),
